@@ -8,11 +8,18 @@ use std::sync::Arc;
 
 pub fn judge(w: &Worker, scen: &Scenario, ex: &Exec) -> Judgement {
     let exp = model::expect(scen);
-    let v = judge_exit0_tree(w, scen, ex, &exp, Level::Content);
+    let mut v = judge_exit0_tree(w, scen, ex, &exp, Level::Content);
+    if ex.res.outcome.is_hang() {
+        // "either a byte-exact destination and exit 0, or a non-zero exit": never finishing is neither
+        v.push(format!("the copy never finishes: {} (after {})", ex.res.outcome.short(), ex.res.hit_sites.join(", ")));
+    }
     simple_judge(v, ex, !ex.res.hit_sites.is_empty())
 }
 
-fn file_scen(name: &str, content: Content, driver: &str, bflag: &[&str], prog: Prog) -> Scenario {
+/// a copy of a few bytes takes a few hundred steps; anything near this budget is spinning
+pub const STEP_LIMIT: usize = 30_000;
+
+pub fn file_scen(name: &str, content: Content, driver: &str, bflag: &[&str], prog: Prog) -> Scenario {
     let tree = vec![Entry::new("f", Kind::File(content)).mode(0o644)];
     let mut args: Vec<&str> = vec!["--driver", driver, "-w", "2"];
     args.extend_from_slice(bflag);
@@ -42,10 +49,11 @@ fn absent_sets() -> Vec<(String, Vec<Fault>)> {
 }
 
 /// every (data-moving call occurrence, clamp value) of a recording run made with `base_faults`
-fn clamp_jobs(w: &Worker, s: &Scenario, base_faults: &[Fault], clamps: &dyn Fn(u64) -> Vec<u64>, eintr: bool, errs: &mut Vec<String>) -> Vec<(Arc<Scenario>, RunSpec, usize)> {
+pub fn clamp_jobs(w: &Worker, s: &Scenario, base_faults: &[Fault], clamps: &dyn Fn(u64) -> Vec<u64>, eintr: bool, errs: &mut Vec<String>) -> Vec<(Arc<Scenario>, RunSpec, usize)> {
     let sa = Arc::new(s.clone());
     let mut base = RunSpec::base(Policy::P0);
     base.faults = base_faults.to_vec();
+    base.step_limit = STEP_LIMIT;
     let mut jobs = vec![(sa.clone(), base.clone(), 0usize)];
     let rec = match w.run(s, &base) {
         Ok(r) => r,
@@ -112,6 +120,7 @@ pub fn run(ctx: &Ctx) -> Report {
                     // (b) small kernel: every data-moving call moves at most c bytes
                     for c in [1u64, 2, 3] {
                         let mut sp = RunSpec::base(Policy::P0);
+                        sp.step_limit = STEP_LIMIT;
                         sp.faults.push(Fault { call: "DATA".into(), thread: None, nth: None, path_contains: None, action: Action::Clamp(c) });
                         jobs.push((Arc::new(s.clone()), sp, 0));
                     }
@@ -156,6 +165,7 @@ pub fn run(ctx: &Ctx) -> Report {
                     }
                     for c in [1000u64, 4096] {
                         let mut sp = RunSpec::base(Policy::P0);
+                        sp.step_limit = STEP_LIMIT;
                         sp.faults.push(Fault { call: "DATA".into(), thread: None, nth: None, path_contains: None, action: Action::Clamp(c) });
                         jobs.push((Arc::new(s.clone()), sp, 0));
                     }
